@@ -99,6 +99,8 @@ Qed.
 Lemma lookup_cset c g id k : lookup (cset c g id) k = if term_eqb g k then Some id else lookup c k.
 Proof. unfold cset. simpl. rewrite lookup_cdel. destruct (term_eqb g k); reflexivity. Qed.
 
+Global Opaque cset.
+
 Lemma clean_not_fwd g : clean g = true -> is_fwd g = false.
 Proof.
   intros H. unfold is_fwd. apply term_eqb_neq. intros ->. simpl in H. discriminate.
@@ -181,4 +183,430 @@ Proof.
     destruct (inv_obj _ HI id x Hx) as (A & B & C & D).
     rewrite A, Hgx, term_eqb_refl, B. simpl. split; [|split; [|split]]; auto using ext_refl.
   - apply Hfresh; auto.
+Qed.
+
+(* ---------------------------------------------------------------- constructors *)
+Lemma opt_of_default u id x : Inv u -> get u id = Some x -> opt_of u id = ODefault.
+Proof. intros HI H. unfold opt_of. rewrite H. apply (inv_obj _ HI id x H). Qed.
+
+Definition good (u u' : univ) (g : term) (id : nat) : Prop :=
+  Inv u' /\ ext u u' /\ lookup (cache u') g = Some id.
+
+Lemma unary_ok u ie mk fp x : Inv u -> (forall t, clean (mk t) = clean t) -> get u ie = Some x ->
+  exists u' id, unary u ie mk fp = Some (u', id) /\ good u u' (mk (ogt x)) id /\ rcache u' = rcache u.
+Proof.
+  intros HI Hmk Hx. destruct (inv_obj _ HI ie x Hx) as (A & B & C & D).
+  unfold unary. rewrite Hx. unfold propagate, approx. rewrite B, A, (clean_not_fwd _ C). simpl.
+  pose proof (maketype4_ok u (mk (ogt x)) HI) as M. rewrite Hmk in M. specialize (M C). simpl in M.
+  destruct fp; rewrite (opt_of_default u ie x HI Hx); (destruct (maketype4 u (mk (ogt x)) (mk (ogt x)) ODefault) as [u' id] eqn:E; exists u', id;
+    simpl in M; destruct M as (M1 & M2 & M3 & M4); split; [reflexivity|split; [split; [|split]; auto|auto]]).
+Qed.
+
+Lemma map_of_ok u ik ie k e : Inv u -> get u ik = Some k -> get u ie = Some e ->
+  exists u' id, map_of u ik ie = Some (u', id) /\ good u u' (TMap (ogt k) (ogt e)) id /\ rcache u' = rcache u.
+Proof.
+  intros HI Hk He. destruct (inv_obj _ HI ik k Hk) as (A & B & C & D). destruct (inv_obj _ HI ie e He) as (A' & B' & C' & D').
+  unfold map_of. rewrite Hk. unfold approx. rewrite B. simpl. rewrite He. rewrite B'. simpl.
+  rewrite (opt_of_default u ik k HI Hk), (opt_of_default u ie e HI He), A, A'. simpl.
+  assert (Hc : clean (TMap (ogt k) (ogt e)) = true) by (simpl; rewrite C, C'; reflexivity).
+  pose proof (maketype4_ok u _ HI Hc) as M. simpl in M.
+  destruct (maketype4 u (TMap (ogt k) (ogt e)) (TMap (ogt k) (ogt e)) ODefault) as [u' id] eqn:E.
+  exists u', id. simpl in M. destruct M as (M1 & M2 & M3 & M4). split; [reflexivity|split; [split; [|split]; auto|auto]].
+Qed.
+
+Fixpoint clean_all (l : list term) : bool := match l with [] => true | x :: l' => clean x && clean_all l' end.
+Lemma clean_func i o v : clean (TFunc i o v) = clean_all i && clean_all o.
+Proof. reflexivity. Qed.
+Fixpoint clean_fs (l : list (N * term)) : bool := match l with [] => true | (_, x) :: l' => clean x && clean_fs l' end.
+Lemma clean_struct fs : clean (TStruct fs) = clean_fs fs.
+Proof. reflexivity. Qed.
+
+Lemma get_all_props u ids xs : Inv u -> get_all u ids = Some xs ->
+  map ort xs = map ogt xs /\ combine_opt xs = ODefault /\ clean_all (map ogt xs) = true /\
+  Forall2 (fun i x => get u i = Some x) ids xs.
+Proof.
+  intros HI. revert xs. induction ids as [|i ids IH]; intros xs H; simpl in H.
+  - inversion H; subst. simpl. auto.
+  - destruct (get u i) as [x|] eqn:Hx; [|discriminate]. destruct (get_all u ids) as [ys|] eqn:Hy; [|discriminate].
+    inversion H; subst xs. destruct (IH ys eq_refl) as (P1 & P2 & P3 & P4).
+    destruct (inv_obj _ HI i x Hx) as (A & B & C & D).
+    split; [simpl; rewrite A, P1; reflexivity|].
+    split; [unfold combine_opt in *; simpl; rewrite B, P2; reflexivity|].
+    split; [simpl; rewrite C, P3; reflexivity|].
+    constructor; auto.
+Qed.
+
+Lemma existsb_fwd_clean l : clean_all l = true -> existsb is_fwd l = false.
+Proof.
+  induction l as [|x l IH]; simpl; auto. rewrite andb_true_iff. intros [A B]. rewrite (clean_not_fwd x A), IH; auto.
+Qed.
+Lemma clean_all_app a b : clean_all (a ++ b) = clean_all a && clean_all b.
+Proof. induction a; simpl; auto. rewrite IHa, andb_assoc. reflexivity. Qed.
+
+Lemma func_of_ok u ins outs va xi xo : Inv u -> get_all u ins = Some xi -> get_all u outs = Some xo ->
+  exists u' id, func_of u ins outs va = Some (u', id) /\ good u u' (TFunc (map ogt xi) (map ogt xo) va) id /\ rcache u' = rcache u.
+Proof.
+  intros HI Hi Ho. destruct (get_all_props u ins xi HI Hi) as (A1 & A2 & A3 & _).
+  destruct (get_all_props u outs xo HI Ho) as (B1 & B2 & B3 & _).
+  unfold func_of. rewrite Hi, Ho, A1, B1, A2, B2.
+  rewrite (existsb_fwd_clean (map ogt xi ++ map ogt xo)) by (rewrite clean_all_app, A3, B3; reflexivity). simpl.
+  assert (Hc : clean (TFunc (map ogt xi) (map ogt xo) va) = true) by (rewrite clean_func, A3, B3; reflexivity).
+  pose proof (maketype4_ok u _ HI Hc) as M. simpl in M.
+  destruct (maketype4 u (TFunc (map ogt xi) (map ogt xo) va) (TFunc (map ogt xi) (map ogt xo) va) ODefault) as [u' id] eqn:E.
+  exists u', id. simpl in M. destruct M as (M1 & M2 & M3 & M4). split; [reflexivity|split; [split; [|split]; auto|auto]].
+Qed.
+
+Lemma clean_fs_combine ns ts : clean_all ts = true -> clean_fs (combine ns ts) = true.
+Proof.
+  revert ts. induction ns as [|n ns IH]; intros [|t ts]; simpl; auto. rewrite andb_true_iff. intros [A B]. rewrite A, IH; auto.
+Qed.
+
+Lemma struct_of_ok u fs xs : Inv u -> get_all u (map snd fs) = Some xs ->
+  exists u' id, struct_of u fs = Some (u', id) /\ good u u' (TStruct (combine (map fst fs) (map ogt xs))) id /\ rcache u' = rcache u.
+Proof.
+  intros HI Hx. destruct (get_all_props u _ xs HI Hx) as (A1 & A2 & A3 & _).
+  unfold struct_of. rewrite Hx, A1, A2.
+  assert (Hc : clean (TStruct (combine (map fst fs) (map ogt xs))) = true) by (rewrite clean_struct; apply clean_fs_combine; auto).
+  pose proof (maketype4_ok u _ HI Hc) as M. simpl in M.
+  destruct (maketype4 u (TStruct (combine (map fst fs) (map ogt xs))) (TStruct (combine (map fst fs) (map ogt xs))) ODefault) as [u' id] eqn:E.
+  exists u', id. simpl in M. destruct M as (M1 & M2 & M3 & M4). split; [reflexivity|split; [split; [|split]; auto|auto]].
+Qed.
+
+(* ---------------------------------------------------------------- histories *)
+Definition rel (u : univ) (r : option nat) (d : option term) : Prop :=
+  match r, d with
+  | Some id, Some t => lookup (cache u) t = Some id
+  | None, None => True
+  | _, _ => False
+  end.
+
+Lemma rel_ext u u' res den : ext u u' -> Forall2 (rel u) res den -> Forall2 (rel u') res den.
+Proof.
+  intros E. induction 1; constructor; auto. destruct x as [id|], y as [t|]; simpl in *; auto. apply (ext_cache _ _ E); auto.
+Qed.
+
+Lemma Forall2_nth {A B} (R : A -> B -> Prop) a b : Forall2 R a b -> forall i,
+  match nth_error a i with
+  | Some x => exists y, nth_error b i = Some y /\ R x y
+  | None => nth_error b i = None
+  end.
+Proof.
+  induction 1; intros [|i]; simpl; auto.
+  - exists y. auto.
+  - apply IHForall2.
+Qed.
+
+Lemma sel_rel u res den i : Forall2 (rel u) res den ->
+  match sel res i with
+  | Some id => exists t, dsel den i = Some t /\ lookup (cache u) t = Some id
+  | None => dsel den i = None
+  end.
+Proof.
+  intros F. pose proof (Forall2_nth _ _ _ F i) as H. unfold sel, dsel.
+  destruct (nth_error res i) as [[id|]|].
+  - destruct H as ([t|] & -> & R); simpl in R; [|contradiction]. exists t. auto.
+  - destruct H as ([t|] & -> & R); simpl in R; [contradiction|]. reflexivity.
+  - rewrite H. reflexivity.
+Qed.
+
+Lemma sel_all_rel u res den is : Inv u -> Forall2 (rel u) res den ->
+  match sel_all res is with
+  | Some ids => exists xs, dsel_all den is = Some (map ogt xs) /\ get_all u ids = Some xs
+  | None => dsel_all den is = None
+  end.
+Proof.
+  intros HI F. induction is as [|i is IH]; simpl.
+  - exists []. auto.
+  - pose proof (sel_rel u res den i F) as S. destruct (sel res i) as [id|].
+    + destruct S as (t & -> & L). destruct (inv_cache _ HI t id L) as (x & Hx & Hg).
+      destruct (sel_all res is) as [ids|].
+      * destruct IH as (xs & -> & G). exists (x :: xs). simpl. rewrite Hx, G, Hg. auto.
+      * rewrite IH. reflexivity.
+    + rewrite S. reflexivity.
+Qed.
+
+Lemma sel_all_length res is a : sel_all res is = Some a -> length a = length is.
+Proof.
+  revert a. induction is as [|i is IH]; intros a H; simpl in H.
+  - inversion H. reflexivity.
+  - destruct (sel res i); [|discriminate]. destruct (sel_all res is); [|discriminate]. inversion H. simpl. f_equal. apply IH. reflexivity.
+Qed.
+Lemma map_snd_combine {A B} (a : list A) (b : list B) : length a = length b -> map snd (combine a b) = b.
+Proof. revert b. induction a; intros [|y b] H; simpl in *; try discriminate; auto. f_equal. apply IHa. lia. Qed.
+Lemma map_fst_combine {A B} (a : list A) (b : list B) : length a = length b -> map fst (combine a b) = a.
+Proof. revert b. induction a; intros [|y b] H; simpl in *; try discriminate; auto. f_equal. apply IHa. lia. Qed.
+
+Definition FRspec : Prop := forall r u, clean r = true -> Inv u ->
+  good u (fst (from_reflect r u)) r (snd (from_reflect r u)).
+
+Section History.
+  Hypothesis FR : FRspec.
+  Opaque from_reflect.
+
+  Definition step_post (u : univ) (den : list (option term)) (o : op) (r : option (univ * nat)) : Prop :=
+    match r with
+    | Some (u', id) => exists t, denote1 den o = Some t /\ good u u' t id
+    | None => denote1 den o = None
+    end.
+
+  Lemma step_ok u res den o : Inv u -> Forall2 (rel u) res den -> step_post u den o (step u res o).
+  Proof.
+    intros HI F. unfold step_post. destruct o; simpl.
+    - (* OBase *) destruct (negb (k =? 255)%N) eqn:E; [|reflexivity].
+      pose proof (FR (TBasic k) u) as G. simpl in G. rewrite E in G. specialize (G eq_refl HI).
+      destruct (from_reflect (TBasic k) u) as [u' id]. exists (TBasic k). auto.
+    - (* ONamed *) pose proof (FR (TNamed id) u eq_refl HI) as G.
+      destruct (from_reflect (TNamed id) u) as [u' i]. exists (TNamed id). auto.
+    - (* OPtr *) unfold bind1. pose proof (sel_rel u res den i F) as S. destruct (sel res i) as [id|].
+      + destruct S as (t & -> & L). destruct (inv_cache _ HI t id L) as (x & Hx & <-).
+        destruct (unary_ok u id TPtr true x HI (fun _ => eq_refl) Hx) as (u' & j & E & G & _).
+        unfold ptr_to. rewrite E. exists (TPtr (ogt x)). auto.
+      + rewrite S. reflexivity.
+    - (* OSlice *) unfold bind1. pose proof (sel_rel u res den i F) as S. destruct (sel res i) as [id|].
+      + destruct S as (t & -> & L). destruct (inv_cache _ HI t id L) as (x & Hx & <-).
+        destruct (unary_ok u id TSlice true x HI (fun _ => eq_refl) Hx) as (u' & j & E & G & _).
+        unfold slice_of. rewrite E. exists (TSlice (ogt x)). auto.
+      + rewrite S. reflexivity.
+    - (* OArray *) unfold bind1. pose proof (sel_rel u res den i F) as S. destruct (sel res i) as [id|].
+      + destruct S as (t & -> & L). destruct (inv_cache _ HI t id L) as (x & Hx & <-).
+        destruct (unary_ok u id (TArray n) true x HI (fun _ => eq_refl) Hx) as (u' & j & E & G & _).
+        unfold array_of. rewrite E. exists (TArray n (ogt x)). auto.
+      + rewrite S. reflexivity.
+    - (* OChan *) unfold bind1. pose proof (sel_rel u res den i F) as S. destruct (sel res i) as [id|].
+      + destruct S as (t & -> & L). destruct (inv_cache _ HI t id L) as (x & Hx & <-).
+        destruct (unary_ok u id (TChan d) false x HI (fun _ => eq_refl) Hx) as (u' & j & E & G & _).
+        unfold chan_of. rewrite E. exists (TChan d (ogt x)). auto.
+      + rewrite S. reflexivity.
+    - (* OMap *) unfold bind1. pose proof (sel_rel u res den k F) as S. destruct (sel res k) as [ik|].
+      + destruct S as (tk & -> & Lk). pose proof (sel_rel u res den e F) as S2. destruct (sel res e) as [ie|].
+        * destruct S2 as (te & -> & Le).
+          destruct (inv_cache _ HI tk ik Lk) as (xk & Hxk & <-). destruct (inv_cache _ HI te ie Le) as (xe & Hxe & <-).
+          destruct (map_of_ok u ik ie xk xe HI Hxk Hxe) as (u' & j & E & G & _). rewrite E.
+          exists (TMap (ogt xk) (ogt xe)). auto.
+        * rewrite S2. reflexivity.
+      + rewrite S. reflexivity.
+    - (* OFunc *) pose proof (sel_all_rel u res den ins HI F) as S1. destruct (sel_all res ins) as [a|].
+      + destruct S1 as (xi & -> & Gi). pose proof (sel_all_rel u res den outs HI F) as S2. destruct (sel_all res outs) as [b|].
+        * destruct S2 as (xo & -> & Go). destruct (func_of_ok u a b va xi xo HI Gi Go) as (u' & j & E & G & _). rewrite E.
+          exists (TFunc (map ogt xi) (map ogt xo) va). auto.
+        * rewrite S2. reflexivity.
+      + rewrite S1. reflexivity.
+    - (* OStruct *) pose proof (sel_all_rel u res den (map snd fs) HI F) as S1. destruct (sel_all res (map snd fs)) as [a|] eqn:Esel.
+      + destruct S1 as (xs & -> & Gx).
+        pose proof (sel_all_length res (map snd fs) a Esel) as La. rewrite map_length in La.
+        assert (E1 : map snd (combine (map fst fs) a) = a) by (apply map_snd_combine; rewrite map_length; auto).
+        assert (E2 : map fst (combine (map fst fs) a) = map fst fs) by (apply map_fst_combine; rewrite map_length; auto).
+        rewrite <- E1 in Gx.
+        destruct (struct_of_ok u (combine (map fst fs) a) xs HI Gx) as (u' & j & E & G & _). rewrite E.
+        rewrite E2 in G. exists (TStruct (combine (map fst fs) (map ogt xs))). auto.
+      + rewrite S1. reflexivity.
+    - (* OFrom *) destruct (clean r) eqn:E; [|reflexivity].
+      pose proof (FR r u E HI) as G. destruct (from_reflect r u) as [u' id]. exists r. auto.
+  Qed.
+
+  Lemma run_ok : forall ops u res den, Inv u -> Forall2 (rel u) res den ->
+    Inv (fst (run_from u res ops)) /\ Forall2 (rel (fst (run_from u res ops))) (snd (run_from u res ops)) (denote_from den ops).
+  Proof.
+    induction ops as [|o ops IH]; intros u res den HI F; simpl; auto.
+    pose proof (step_ok u res den o HI F) as S. unfold step_post in S. destruct (step u res o) as [[u' id]|].
+    - destruct S as (t & -> & (I & E & L)). apply IH; auto.
+      apply Forall2_app; [apply rel_ext with u; auto|constructor; [exact L|constructor]].
+    - rewrite S. apply IH; auto. apply Forall2_app; auto. constructor; simpl; auto.
+  Qed.
+
+  Lemma run_inv ops : Inv (fst (run ops)) /\ Forall2 (rel (fst (run ops))) (snd (run ops)) (denote ops).
+  Proof. apply run_ok; [apply Inv_empty|constructor]. Qed.
+
+  Lemma result_term ops i a : nth_error (snd (run ops)) i = Some (Some a) ->
+    exists t x, nth_error (denote ops) i = Some (Some t) /\ lookup (cache (fst (run ops))) t = Some a /\
+                get (fst (run ops)) a = Some x /\ ogt x = t /\ ort x = t /\ oopt x = ODefault.
+  Proof.
+    intros H. destruct (run_inv ops) as (HI & F). pose proof (Forall2_nth _ _ _ F i) as N. rewrite H in N.
+    destruct N as ([t|] & Hd & R); simpl in R; [|contradiction].
+    destruct (inv_cache _ HI t a R) as (x & Hx & Hg). destruct (inv_obj _ HI a x Hx) as (A & B & _).
+    exists t, x. repeat split; auto. congruence.
+  Qed.
+
+  (* object identity = term identity, over every history *)
+  Lemma canonical ops i j a b :
+    nth_error (snd (run ops)) i = Some (Some a) -> nth_error (snd (run ops)) j = Some (Some b) ->
+    (a = b <-> nth_error (denote ops) i = nth_error (denote ops) j).
+  Proof.
+    intros Ha Hb. destruct (result_term ops i a Ha) as (ta & xa & Da & La & Ga & Ta & _).
+    destruct (result_term ops j b Hb) as (tb & xb & Db & Lb & Gb & Tb & _).
+    rewrite Da, Db. split.
+    - intros ->. rewrite Ga in Gb. inversion Gb; subst xb. congruence.
+    - intros E. inversion E; subst tb. congruence.
+  Qed.
+
+  (* the reflect side of every result denotes the term the history specifies, as does the go/types side *)
+  Lemma pairing ops i a : nth_error (snd (run ops)) i = Some (Some a) ->
+    exists t x, nth_error (denote ops) i = Some (Some t) /\ get (fst (run ops)) a = Some x /\ ogt x = t /\ ort x = t.
+  Proof.
+    intros H. destruct (result_term ops i a H) as (t & x & D & _ & G & A & B & _). exists t, x. auto.
+  Qed.
+
+  (* an op is rejected exactly when the specification says it is ill-formed *)
+  Lemma rejected ops i : nth_error (snd (run ops)) i = Some None <-> nth_error (denote ops) i = Some None.
+  Proof.
+    destruct (run_inv ops) as (_ & F). pose proof (Forall2_nth _ _ _ F i) as N. split; intros H.
+    - rewrite H in N. destruct N as ([t|] & Hd & R); simpl in R; [contradiction|auto].
+    - destruct (nth_error (snd (run ops)) i) as [[a|]|]; auto.
+      + destruct N as (y & Hy & R). rewrite H in Hy. inversion Hy; subst y. simpl in R. contradiction.
+      + rewrite H in N. discriminate.
+  Qed.
+
+  (* the Forward / OptRecursive / OptIncomplete machinery and the "mismatched reflect.Type" branch of maketype4
+     (the only non-canonical path) are never entered *)
+  Lemma no_forward ops id x : get (fst (run ops)) id = Some x -> is_fwd (ort x) = false /\ oopt x = ODefault.
+  Proof.
+    intros H. destruct (run_inv ops) as (HI & _). destruct (inv_obj _ HI id x H) as (A & B & C & _).
+    rewrite A. split; auto. apply clean_not_fwd; auto.
+  Qed.
+End History.
+
+(* ---------------------------------------------------------------- FromReflectType: the part proved *)
+Transparent from_reflect.
+Lemma from_reflect_leaf r u : (exists k, r = TBasic k) \/ (exists i, r = TNamed i) -> clean r = true -> Inv u ->
+  good u (fst (from_reflect r u)) r (snd (from_reflect r u)).
+Proof.
+  intros [[k ->]|[i ->]] Hc HI; simpl.
+  - destruct (maketype4_ok u (TBasic k) HI Hc) as (A & B & C & _). split; [|split]; auto.
+  - destruct (maketype4_ok u (TNamed i) HI Hc) as (A & B & C & _). split; [|split]; auto.
+Qed.
+
+(* pointer/slice/array/chan/map over terms that satisfy the specification satisfy it *)
+Lemma rcache_set_ok u r id : Inv u -> lookup (cache u) r = Some id -> Inv (rcache_set u r id) /\ ext u (rcache_set u r id).
+Proof.
+  intros HI L. split; [constructor|constructor]; unfold rcache_set, get in *; simpl.
+  - apply (inv_obj _ HI).
+  - apply (inv_cache _ HI).
+  - intros k i H. rewrite lookup_cset in H. destruct (term_eqb r k) eqn:E.
+    + apply term_eqb_eq in E; subst k. congruence.
+    + apply (inv_rcache _ HI); auto.
+  - auto.
+  - auto.
+Qed.
+
+Lemma cached_ok u r build : Inv u ->
+  (lookup (rcache u) r = None -> good u (fst (build tt)) r (snd (build tt))) ->
+  good u (fst (cached u r build)) r (snd (cached u r build)).
+Proof.
+  intros HI Hb. unfold cached. destruct (lookup (rcache u) r) as [id|] eqn:E; simpl.
+  - split; [|split]; auto using ext_refl. apply (inv_rcache _ HI); auto.
+  - destruct (Hb eq_refl) as (I & X & L). destruct (rcache_set_ok _ r _ I L) as (I2 & X2).
+    split; [|split]; auto. eapply ext_trans; eauto.
+Qed.
+
+Lemma good_get u u' g id : good u u' g id -> exists x, get u' id = Some x /\ ogt x = g /\ ort x = g /\ oopt x = ODefault.
+Proof.
+  intros (I & _ & L). destruct (inv_cache _ I g id L) as (x & Hx & Hg). destruct (inv_obj _ I id x Hx) as (A & B & _).
+  exists x. repeat split; auto. congruence.
+Qed.
+
+Lemma gt_of_get u i x : get u i = Some x -> gt_of u i = ogt x.
+Proof. unfold gt_of. intros ->. reflexivity. Qed.
+Lemma rt_of_get u i x : get u i = Some x -> rt_of u i = ort x.
+Proof. unfold rt_of. intros ->. reflexivity. Qed.
+Lemma approx_of_get u i x : get u i = Some x -> oopt x = ODefault -> approx_of u i = (u, ort x).
+Proof. unfold approx_of, approx. intros -> ->. reflexivity. Qed.
+Lemma opt_of_get u i x : get u i = Some x -> opt_of u i = oopt x.
+Proof. unfold opt_of. intros ->. reflexivity. Qed.
+
+Definition FRat (r : term) : Prop := forall u, clean r = true -> Inv u -> good u (fst (from_reflect r u)) r (snd (from_reflect r u)).
+
+Lemma FR_unary (mk : term -> term) e (body : univ -> univ * nat) :
+  (forall t, clean (mk t) = clean t) ->
+  FRat e ->
+  (forall u1 i x, get u1 i = Some x -> ogt x = e -> ort x = e -> oopt x = ODefault ->
+     (let '(u1', i') := (u1, i) in body u1) = maketype4 u1 (mk e) (mk e) ODefault) ->
+  forall u, clean (mk e) = true -> Inv u ->
+  (forall u1 i, from_reflect e u = (u1, i) -> True) -> True.
+Proof. auto. Qed.
+
+Lemma FR_ptr e : FRat e -> FRat (TPtr e).
+Proof.
+  intros IH u Hc HI. simpl in Hc. change (from_reflect (TPtr e) u) with
+    (cached u (TPtr e) (fun _ => let '(u1, i) := from_reflect e u in maketype4 u1 (TPtr (gt_of u1 i)) (TPtr e) (opt_of u1 i))).
+  apply cached_ok; auto. intros _. pose proof (IH u Hc HI) as G. destruct (from_reflect e u) as [u1 i]. simpl in G.
+  destruct (good_get _ _ _ _ G) as (x & Hx & A & B & C). destruct G as (I1 & X1 & L1).
+  rewrite (gt_of_get _ _ _ Hx), (opt_of_get _ _ _ Hx), A, C.
+  destruct (maketype4_ok u1 (TPtr e) I1 Hc) as (I2 & X2 & L2 & _). split; [|split]; auto. eapply ext_trans; eauto.
+Qed.
+
+Lemma FR_slice e : FRat e -> FRat (TSlice e).
+Proof.
+  intros IH u Hc HI. simpl in Hc. change (from_reflect (TSlice e) u) with
+    (cached u (TSlice e) (fun _ => let '(u1, i) := from_reflect e u in let '(u2, re) := approx_of u1 i in
+                                     maketype4 u2 (TSlice (gt_of u2 i)) (TSlice re) (opt_of u2 i))).
+  apply cached_ok; auto. intros _. pose proof (IH u Hc HI) as G. destruct (from_reflect e u) as [u1 i]. simpl in G.
+  destruct (good_get _ _ _ _ G) as (x & Hx & A & B & C). destruct G as (I1 & X1 & L1).
+  rewrite (approx_of_get _ _ _ Hx C), (gt_of_get _ _ _ Hx), (opt_of_get _ _ _ Hx), A, B, C.
+  destruct (maketype4_ok u1 (TSlice e) I1 Hc) as (I2 & X2 & L2 & _). split; [|split]; auto. eapply ext_trans; eauto.
+Qed.
+
+Lemma FR_array n e : FRat e -> FRat (TArray n e).
+Proof.
+  intros IH u Hc HI. simpl in Hc. change (from_reflect (TArray n e) u) with
+    (cached u (TArray n e) (fun _ => let '(u1, i) := from_reflect e u in
+                                       maketype4 u1 (TArray n (gt_of u1 i)) (TArray n (rt_of u1 i)) (opt_of u1 i))).
+  apply cached_ok; auto. intros _. pose proof (IH u Hc HI) as G. destruct (from_reflect e u) as [u1 i]. simpl in G.
+  destruct (good_get _ _ _ _ G) as (x & Hx & A & B & C). destruct G as (I1 & X1 & L1).
+  rewrite (gt_of_get _ _ _ Hx), (rt_of_get _ _ _ Hx), (opt_of_get _ _ _ Hx), A, B, C.
+  destruct (maketype4_ok u1 (TArray n e) I1 Hc) as (I2 & X2 & L2 & _). split; [|split]; auto. eapply ext_trans; eauto.
+Qed.
+
+Lemma FR_chan d e : FRat e -> FRat (TChan d e).
+Proof.
+  intros IH u Hc HI. simpl in Hc. change (from_reflect (TChan d e) u) with
+    (cached u (TChan d e) (fun _ => let '(u1, i) := from_reflect e u in
+                                      maketype4 u1 (TChan d (gt_of u1 i)) (TChan d (rt_of u1 i)) (opt_of u1 i))).
+  apply cached_ok; auto. intros _. pose proof (IH u Hc HI) as G. destruct (from_reflect e u) as [u1 i]. simpl in G.
+  destruct (good_get _ _ _ _ G) as (x & Hx & A & B & C). destruct G as (I1 & X1 & L1).
+  rewrite (gt_of_get _ _ _ Hx), (rt_of_get _ _ _ Hx), (opt_of_get _ _ _ Hx), A, B, C.
+  destruct (maketype4_ok u1 (TChan d e) I1 Hc) as (I2 & X2 & L2 & _). split; [|split]; auto. eapply ext_trans; eauto.
+Qed.
+
+Lemma FR_map k e : FRat k -> FRat e -> FRat (TMap k e).
+Proof.
+  intros IHk IHe u Hc HI. simpl in Hc. apply andb_true_iff in Hc. destruct Hc as [Hk He].
+  change (from_reflect (TMap k e) u) with
+    (cached u (TMap k e) (fun _ =>
+      let '(u1, ik) := from_reflect k u in
+      let '(u2, ie) := from_reflect e u1 in
+      let '(u3, rk) := approx_of u2 ik in
+      let '(u4, re) := approx_of u3 ie in
+      maketype4 u4 (TMap (gt_of u4 ik) (gt_of u4 ie)) (TMap rk re) (N.lor (opt_of u4 ik) (opt_of u4 ie)))).
+  apply cached_ok; auto. intros _. pose proof (IHk u Hk HI) as G. destruct (from_reflect k u) as [u1 ik]. simpl in G.
+  destruct G as (I1 & X1 & L1). pose proof (IHe u1 He I1) as G2. destruct (from_reflect e u1) as [u2 ie]. simpl in G2.
+  destruct (good_get _ _ _ _ G2) as (xe & Hxe & Ae & Be & Ce). destruct G2 as (I2 & X2 & L2).
+  pose proof (ext_cache _ _ X2 _ _ L1) as L1'. destruct (inv_cache _ I2 k ik L1') as (xk & Hxk & Ak).
+  destruct (inv_obj _ I2 ik xk Hxk) as (Bk & Ck & _).
+  rewrite (approx_of_get _ _ _ Hxk Ck), (approx_of_get _ _ _ Hxe Ce), (gt_of_get _ _ _ Hxk), (gt_of_get _ _ _ Hxe),
+          (opt_of_get _ _ _ Hxk), (opt_of_get _ _ _ Hxe), Bk, Ak, Ae, Be, Ck, Ce. simpl.
+  assert (Hc : clean (TMap k e) = true) by (simpl; rewrite Hk, He; reflexivity).
+  destruct (maketype4_ok u2 (TMap k e) I2 Hc) as (I3 & X3 & L3 & _). split; [|split]; auto.
+  eapply ext_trans; [exact X1|]. eapply ext_trans; eauto.
+Qed.
+
+(* terms without func/struct components: FromReflectType meets its specification (the func/struct cases, whose
+   components are lists, are exercised by the correspondence runs only) *)
+Fixpoint simple (t : term) : bool :=
+  match t with
+  | TBasic _ | TNamed _ => true
+  | TPtr e | TSlice e | TArray _ e | TChan _ e => simple e
+  | TMap k e => simple k && simple e
+  | TFunc _ _ _ | TStruct _ => false
+  end.
+
+Lemma from_reflect_simple : forall r, simple r = true -> FRat r.
+Proof.
+  induction r using term_ind'; intros Hs; simpl in Hs; try discriminate.
+  - intros u Hc HI. apply from_reflect_leaf; eauto.
+  - intros u Hc HI. apply from_reflect_leaf; eauto.
+  - apply FR_ptr; auto.
+  - apply FR_slice; auto.
+  - apply FR_array; auto.
+  - apply FR_chan; auto.
+  - apply andb_true_iff in Hs. destruct Hs. apply FR_map; auto.
 Qed.
